@@ -131,7 +131,15 @@ func (sc *c20Scenario) Run(s *simrt.Sim) {
 		ths = append(ths, s.Go(name, func() {
 			for _, cl := range mine {
 				cl := cl
-				cl.op = h.Do(name, "Call", cl.block, func() (interface{}, error) { c.Call(cl.block...); return nil, nil })
+				// the caller owns the slice it spreads into Call and reuses it afterwards
+				buf := make([]int, len(cl.block), len(cl.block)+3)
+				copy(buf, cl.block)
+				cl.op = h.Do(name, "Call", cl.block, func() (interface{}, error) { c.Call(buf...); return nil, nil })
+				for i := range buf {
+					buf[i] = -777
+				}
+				buf = append(buf, -778, -779)
+				_ = buf
 				s.Yield()
 			}
 		}))
